@@ -136,10 +136,21 @@ impl<BE: Backend, BRA: BlindRotationAlgo> BlindRotationKeyPrepared<DeviceBuf<BE>
 pub fn mod_switch_2n(n: usize, res: &mut [i64], lwe: &LWE<&[u8]>, rot_dir: LookUpTableRotationDirection) {
     let base2k: usize = lwe.base2k().into();
 
-    let log2n: usize = usize::BITS as usize - (n - 1).leading_zeros() as usize + 1;
+    // Number of bits of the target modulus `n` (a power of two): values are mapped to [-n/2, n/2].
+    let log_n: usize = (usize::BITS - (n - 1).leading_zeros()) as usize;
 
+    // Number of limbs that hold at least `log_n` bits plus one guard bit for the rounding.
+    let size: usize = (log_n + 1).div_ceil(base2k).min(lwe.size()).max(1);
+
+    // res <- sum_{i < size} limb_i * 2^{(size - 1 - i) * base2k}, i.e. the torus value scaled by 2^{size * base2k}.
     res.copy_from_slice(lwe.data().at(0, 0));
+    (1..size).for_each(|i| {
+        izip!(lwe.data().at(0, i).iter(), res.iter_mut()).for_each(|(x, y)| {
+            *y = (*y << base2k) + x;
+        });
+    });
 
+    // The sign applies to the whole value, not to its first limb only.
     match rot_dir {
         LookUpTableRotationDirection::Left => {
             res.iter_mut().for_each(|x| *x = -*x);
@@ -147,26 +158,15 @@ pub fn mod_switch_2n(n: usize, res: &mut [i64], lwe: &LWE<&[u8]>, rot_dir: LookU
         LookUpTableRotationDirection::Right => {}
     }
 
-    if base2k > log2n {
-        let diff: usize = base2k - (log2n - 1); // additional -1 because we map to [-N/2, N/2) instead of [0, N)
+    let have: usize = size * base2k;
+    if have > log_n {
+        let diff: usize = have - log_n;
         res.iter_mut().for_each(|x| {
             *x = div_round_by_pow2(x, diff);
         })
-    } else {
-        let rem: usize = base2k - (log2n % base2k);
-        let size: usize = log2n.div_ceil(base2k);
-        (1..size).for_each(|i| {
-            if i == size - 1 && rem != base2k {
-                let k_rem: usize = base2k - rem;
-                izip!(lwe.data().at(0, i).iter(), res.iter_mut()).for_each(|(x, y)| {
-                    *y = (*y << k_rem) + (x >> rem);
-                });
-            } else {
-                izip!(lwe.data().at(0, i).iter(), res.iter_mut()).for_each(|(x, y)| {
-                    *y = (*y << base2k) + x;
-                });
-            }
-        })
+    } else if have < log_n {
+        let diff: usize = log_n - have;
+        res.iter_mut().for_each(|x| *x <<= diff);
     }
 }
 
